@@ -312,8 +312,8 @@ pub fn judge(case: &Case, ctx: &Ctx) -> Outcome {
     Ok(act) => {
       let mut ok = *act == expected;
       if !ok && (has_skip_last || has_take0) {
-        for (a, b) in [(true, false), (false, true), (true, true)] {
-          let o = Opts { skip_last_lazy: a && has_skip_last, take0_immediate: b && has_take0, ..Opts::default() };
+        for (a, b) in [(true, 0), (false, 1), (true, 1), (false, 2), (true, 2)] {
+          let o = Opts { skip_last_lazy: a && has_skip_last, take0_immediate: b == 1 && has_take0, take0_at_first_item: b == 2 && has_take0, ..Opts::default() };
           if model::eval(&case.node, &inputs, o).map_or(false, |e| e == *act) {
             ok = true;
           }
